@@ -268,6 +268,28 @@ def judge_file_loader():
                 bad = ('code-table-file-load-stale-or-wrong', {'step': i, 'text': t, 'got': repr(got), 'expected': repr(ref_trace_codes(t))})
                 break
             got.clear()                                # a caller that modifies what it was given must not poison later loads
+        # large tables whose lines end exactly at / next to 2^k characters (k = 9..17: every plausible read-buffer size), LF and CRLF
+        for k in range(9, 18):
+            for delta in (-1, 0, 1):
+                for nl in ('\n', '\r\n'):
+                    if bad:
+                        break
+                    target = 2 ** k + delta
+                    t, i = '', 0
+                    while len(t) < target - 64:
+                        t += f'0x{0x1000 + i:x} N{i}{nl}'
+                        i += 1
+                    head = f'0x{0x1000 + i:x} '
+                    t += head + 'P' * (target - len(t) - len(head) - len(nl)) + nl
+                    assert len(t) == target
+                    t += f'0x{0x5000000 + k:x} AFTER{k}{nl}0x{0x5000100 + k:x} LAST{k}'
+                    with open(p1, 'w', newline='') as f:
+                        f.write(t)
+                    got = dict(from_trace_codes_file(p1))
+                    exp = ref_trace_codes(t)
+                    if got != exp:
+                        diff = sorted(set(got.items()) ^ set(exp.items()))[:3]
+                        bad = ('code-table-file-load-wrong-at-buffer-boundary', {'line_ends_at': target, 'newline': repr(nl), 'differs': repr(diff)[:200]})
     finally:
         for f in os.listdir(d):
             os.unlink(os.path.join(d, f))
@@ -286,7 +308,7 @@ class C19(Check):
             'swap two decodable names, add a second id for a name and use it in the stream, the empty table, a one-entry table: 114 tables) x all sequences of <=2 (quick) / <=3 (thorough) operations over 6 operation '
             'kinds x 2 threads; oracle: listing shows NAME (0xid) from the supplied table or bare hex; traces(stream, T\') == '
             'traces(stream with ids renamed through T\', bundled table) in type, text and window; no trace for an absent id; two lazy listings with different tables requested from one object and consumed alternately; '
-            'callstacks / formatted_callstacks under every table edit that touches a sampler name; the file loader on a file rewritten '
+            'callstacks / formatted_callstacks under every table edit that touches a sampler name; the file loader on tables whose lines end exactly at / next to 2^k characters (k=9..17, LF and CRLF) and on a file rewritten '
             '6 times with its modification time pinned, and the bundled table loaded twice. '
             'non-trivial = edited table whose edit touches a name used by the stream.')
     assumptions = ('part B reference is the tool itself on the renamed stream under the bundled table (metamorphic)',
